@@ -328,6 +328,35 @@ def check_request_order(ctx, fi, rule='R-PERM/request-order'):
             t = t[2][0]
         return t
 
+    # parameters the function itself treats as an ordered request: it
+    # sorts / argsorts / merges them somewhere
+    requests = set()
+    alias = {p_: {p_} for p_ in params}
+    for st in ast.walk(fi.node):
+        if isinstance(st, ast.Assign) and len(st.targets) == 1 \
+                and isinstance(st.targets[0], ast.Name):
+            v = st.value
+            while isinstance(v, ast.Call) and v.args and getattr(
+                    v.func, 'attr', getattr(v.func, 'id', None)) \
+                    in _WRAPPERS:
+                v = v.args[0]
+            if isinstance(v, ast.Name):
+                for p_, names in alias.items():
+                    if v.id in names:
+                        names.add(st.targets[0].id)
+    for c in ast.walk(fi.node):
+        if isinstance(c, ast.Call):
+            nm = getattr(c.func, 'attr', getattr(c.func, 'id', None))
+            if nm in ('argsort', 'sort', 'sorted', 'unique',
+                      'merge_index_list'):
+                cands = list(c.args)
+                if isinstance(c.func, ast.Attribute):
+                    cands.append(c.func.value)
+                for a in cands:
+                    if isinstance(a, ast.Name):
+                        for p_, names in alias.items():
+                            if a.id in names:
+                                requests.add(p_)
     n = 0
     for r in cfg.nodes:
         if r.kind != 'return' or r.id not in rd.live \
@@ -347,6 +376,23 @@ def check_request_order(ctx, fi, rule='R-PERM/request-order'):
             if x[0] == 'param' and x[1] in params:
                 (lost if under else kept).add(x[1])
                 return
+            # one element of the request (`rows[0]`, `rows[-1]`) or its
+            # length says nothing about the order of the rest
+            if x[0] == 'sub' and isinstance(x[2], tuple) and x[2] \
+                    and (x[2][0] == 'const' or (
+                        x[2][0] == 'unop' and isinstance(x[2][-1], tuple)
+                        and x[2][-1] and x[2][-1][0] == 'const')):
+                s_ = strip(x[1])
+                if isinstance(s_, tuple) and s_ and s_[0] == 'param' \
+                        and s_[1] in requests:
+                    lost.add(s_[1])
+                    return
+            if x[0] == 'call' and T.call_name(x) == 'len' and x[2]:
+                s_ = strip(x[2][0])
+                if isinstance(s_, tuple) and s_ and s_[0] == 'param' \
+                        and s_[1] in requests:
+                    lost.add(s_[1])
+                    return
             if x[0] == 'call':
                 nm = T.call_name(x)
                 if nm == 'argsort':
